@@ -61,8 +61,12 @@ def _work(item):
         names = [out_name(g, i, d) for i in outs]
         _verif.drain()
         m = f.ExcelModel().from_ranges(*names)
-        m.finish()
         evs = _verif.drain()
+        # Complete!ClosureComplete at the return of from_ranges itself (finish() would
+        # complete the model once more and hide a gap): everything the outputs need
+        loaded_now = {e['node'] for e in evs if e['ev'] == 'add'}
+        m.finish()
+        evs = evs + _verif.drain()
         name2id = {G.node_name(i): i for i in g.cells}
         rect2anchor = {G.rect_node_name(*c['rect']): i for i, c in g.cells.items() if c['k'] == 'af'}
         for e in evs:
@@ -83,6 +87,19 @@ def _work(item):
                 for i in outs:
                     if n.upper().replace(d.upper() + '/', '') == G.node_name(i).upper():
                         res['popped'].append(i)
+        need = G.needed_from(g, outs)
+        have = set()
+        for n_ in loaded_now:
+            if n_ in name2id:
+                have.add(name2id[n_])
+            elif n_ in rect2anchor:
+                a = rect2anchor[n_]
+                have.add(a)
+                have |= {x for x, c in g.cells.items() if c['k'] == 'sp' and c['anchor'] == a}
+        gap = sorted(i for i in need if i in g.cells and i not in have)
+        if gap:
+            res['problems'].append({'kind': 'closure-incomplete-at-return-of-from_ranges', 'cell': gap[0],
+                                    'outs': outs, 'observed': 'not loaded: %s' % ', '.join(gap[:6])})
         sol = m.calculate()
         for i in outs:
             res['n'] += 1
